@@ -270,3 +270,18 @@ theorem genWktProjection_eq (sr : SR α) (d : Str) : genWktProjection sr d = par
 
 end
 end GeomV.C20
+
+/-! ## parseCode.go: testWKT -/
+namespace GeomV.C20
+
+/-- `testWKT` of the model recognises a WKT text by exactly the `codeWords` of the current source, each looked for with
+`strings.Contains` in a loop that returns `true` at the first hit -/
+theorem genCodeWords_eq (c : Str) : testWKT c = genCodeWords.any (fun w => containsSub c w.toList) := by
+  unfold testWKT genCodeWords
+  simp only [List.any_cons, List.any_nil, Bool.or_false, s, Bool.or_assoc]
+
+theorem genTestWKTLoop_pin :
+    genTestWKTLoop = "for _, c := range codeWords { if strings.Contains(code, c) { return true } } ;; return false" := by
+  decide +kernel
+
+end GeomV.C20
